@@ -38,7 +38,8 @@ REQUIRED = ["built", "fields_compared", "repacked", "ipv4_csums", "l4_csums",
             "ip_payloads_shorter_than_their_protocol_header",
             "last_fragments_of_parsed_protocols",
             "template_frames_roundtripped", "library_chosen_identifications",
-            "earlier_packets_rechecked",
+            "earlier_packets_rechecked", "transport_headers_put_under_a_new_ip_header",
+            "transport_headers_moved_to_the_other_ip_version",
             "v6_csums"]
 TIMEOUT = {"quick": 900, "thorough": 7200}
 
@@ -589,6 +590,78 @@ def run_built (case, rep):
   return b
 
 
+REHOME_KINDS = ["tcp", "tcp_opts", "udp", "ip6_udp", "ip6_tcp", "ip6_icmp", "vxlan",
+                "rip", "icmp_echo"]
+
+
+def run_rehome (case, rep):
+  """
+  Headers used again: what a router, NAT or tunnel endpoint written with the
+  library does.  A transport header taken out of a *parsed* packet (or one
+  that was packed under another IP header before) is put under a new IPv4 or
+  IPv6 header with other addresses and serialised.  The bytes that come out
+  carry length fields and checksums (pseudo-header of the NEW addresses) that
+  are right, and they parse back to themselves.
+  """
+  pkt = P()
+  kind = case["kind"]
+  def fire (key, what):
+    rep.violation("C14 " + key, what, case)
+  rng = random.Random(case["seed"])
+  label = "re-homed %s" % kind
+  try:
+    p = build(kind, rng)
+    b0 = p.pack()
+    src_pkt = pkt.ethernet(raw=b0) if case["how"] == "parsed" else p
+  except Exception:
+    fire("%s: assembling raises" % label, traceback.format_exc()[-500:]); return
+  l4 = None
+  for x in chain(src_pkt)[0]:
+    if type(x).__name__ in ("tcp", "udp", "icmpv6", "icmp") and \
+       type(getattr(x, "prev", None)).__name__ in ("ipv4", "ipv6"):
+      l4 = x; break
+  if l4 is None: return
+  tn = type(l4).__name__
+  old = l4.prev
+  to6 = case["to6"]
+  if tn == "icmpv6": to6 = True
+  if tn == "icmp": to6 = False
+  proto = {"tcp": 6, "udp": 17, "icmpv6": 58, "icmp": 1}[tn]
+  try:
+    if to6:
+      ip = pkt.ipv6(srcip=addr6(rng), dstip=addr6(rng))
+      ip.next_header_type = proto
+      ip.hop_limit = 64
+      et = 0x86dd
+    else:
+      ip = pkt.ipv4(srcip=addr4(rng), dstip=addr4(rng), protocol=proto)
+      et = 0x0800
+    if case["via"] == "attr": ip.payload = l4
+    else: ip.set_payload(l4)
+    e = pkt.ethernet(dst=mac(rng), src=mac(rng), type=et)
+    e.payload = ip
+    b = e.pack()
+  except Exception as ex:
+    fire("%s: pack raises %s" % (label, type(ex).__name__), traceback.format_exc()[-500:])
+    return
+  rep.count("transport_headers_put_under_a_new_ip_header")
+  if type(old).__name__ != type(ip).__name__: rep.count("transport_headers_moved_to_the_other_ip_version")
+  if not verify_bytes(fire, rep, b, label): return
+  try:
+    q = pkt.ethernet(raw=b)
+    b2 = q.pack()
+  except Exception as ex:
+    fire("%s: parse / re-pack raises %s" % (label, type(ex).__name__),
+         traceback.format_exc()[-500:]); return
+  names = [type(x).__name__ for x in chain(q)[0]]
+  if tn not in names:
+    fire("%s: transport header not parsed back" % label, ">".join(names)); return
+  if b2 != b:
+    fire("%s: serialising the parsed packet gives other bytes" % label,
+         "%d/%d bytes" % (len(b), len(b2))); return
+  return b
+
+
 def run_corpus (case, rep):
   pkt = P()
   name = case["name"]; b = case["frame"]
@@ -684,6 +757,7 @@ def recheck_alive (rep, label, case):
 def do_case (case, rep):
   try:
     if case["mode"] == "built": b = run_built(case, rep)
+    elif case["mode"] == "rehome": b = run_rehome(case, rep)
     else: b = run_corpus(case, rep)
   except Exception:
     rep.violation("C14 harness-visible exception",
@@ -698,10 +772,12 @@ def plan (tier, seed):
     return ([dict(mode="built", per=400, sub=i) for i in range(14)] +
             [dict(mode="corpus", sub=0)] +
             [dict(mode="template", per=600, sub=i) for i in range(2)] +
+            [dict(mode="rehome", per=200, sub=i) for i in range(2)] +
             [dict(mode="ids", n=140000, sub=0)])
   return ([dict(mode="built", per=9000, sub=i) for i in range(64)] +
           [dict(mode="corpus", sub=0)] +
           [dict(mode="template", per=40000, sub=i) for i in range(16)] +
+          [dict(mode="rehome", per=8000, sub=i) for i in range(8)] +
           [dict(mode="ids", n=400000, sub=0)])
 
 
@@ -753,6 +829,13 @@ def run (spec, rep):
         fam, raw = t(rng)
         do_case(dict(mode="corpus", name="t:" + fam, frame=raw, template=True,
                      layers=corpus.FAMILY_LAYERS[fam]), rep)
+    return
+  if spec["mode"] == "rehome":
+    for k in REHOME_KINDS:
+      for i in range(spec["per"]):
+        do_case(dict(mode="rehome", kind=k, how=("parsed", "packed")[i % 2],
+                     to6=bool((i // 2) % 2), via=("attr", "method")[(i // 4) % 2],
+                     seed="c14/%d/%d/rehome/%s/%d" % (spec["seed"], spec["sub"], k, i)), rep)
     return
   first = True
   for k in KINDS:
